@@ -333,6 +333,16 @@ def _decorate_namespace_property(
         namespace[key] = property(fget=fget, fset=fset, fdel=fdel)
 
 
+def _is_defined_in_bases(bases: List[type], value: Any) -> bool:
+    """Check whether the ``value`` is the very object defined in one of the ``bases`` or in their ancestors."""
+    for base in bases:
+        for cls in inspect.getmro(base):
+            if any(a_value is value for a_value in vars(cls).values()):
+                return True
+
+    return False
+
+
 def _dbc_decorate_namespace(
     bases: List[type], namespace: MutableMapping[str, Any]
 ) -> None:
@@ -352,6 +362,16 @@ def _dbc_decorate_namespace(
         )
 
     for key, value in namespace.items():
+        if inspect.isfunction(value) or isinstance(
+            value, (staticmethod, classmethod, property)
+        ):
+            # A function or a property which is merely re-exported from one of the bases
+            # (*e.g.*, ``some_func = SomeBase.some_func``) keeps its contracts as-is, as if it were inherited.
+            # Its contract checker belongs to the base and must not be changed, lest we change the contracts
+            # of the base class.
+            if _is_defined_in_bases(bases=bases, value=value):
+                continue
+
         if inspect.isfunction(value) or isinstance(value, (staticmethod, classmethod)):
             _decorate_namespace_function(bases=bases, namespace=namespace, key=key)
 
